@@ -57,6 +57,9 @@ type ConnSpec struct {
 	GapUs     int   `json:"gap_us"`     // pause between writes
 	LeaveOpen bool  `json:"leave_open"` // do not close before the stop (prefix rule applies)
 	StartMs   int   `json:"start_ms"`
+	// PaceEvery > 0: closed-loop pacing - after every PaceEvery records the client waits (bounded) until every upstream has
+	// acknowledged the last record it wrote, so the backlog in the agent never exceeds one burst whatever the machine load
+	PaceEvery int `json:"pace_every,omitempty"`
 }
 
 // GenSpec is one generation of the agent (start ... graceful stop).
@@ -477,7 +480,7 @@ type clientResult struct {
 	err     string
 }
 
-func runClient(addr string, cs ConnSpec, stop, stopping <-chan struct{}) clientResult {
+func runClient(addr string, cs ConnSpec, stop, stopping <-chan struct{}, waitAcked func(stamp string) bool) clientResult {
 	res := clientResult{id: cs.ID}
 	if cs.StartMs > 0 {
 		select {
@@ -510,10 +513,19 @@ func runClient(addr string, cs ConnSpec, stop, stopping <-chan struct{}) clientR
 	}
 	data := buf.Bytes()
 	off := 0
+	paced := 0 // records completely written and waited for
 	for off < len(data) {
 		n := len(data) - off
 		if cs.WriteSize > 0 && n > cs.WriteSize {
 			n = cs.WriteSize
+		}
+		if cs.PaceEvery > 0 && waitAcked != nil {
+			// write exactly up to the end of the next burst, then wait for its last record to be acknowledged
+			next := paced + cs.PaceEvery
+			if next > len(ends) {
+				next = len(ends)
+			}
+			n = ends[next-1] - off
 		}
 		_ = tc.SetWriteDeadline(time.Now().Add(20 * time.Second))
 		w, err := tc.Write(data[off : off+n])
@@ -521,6 +533,15 @@ func runClient(addr string, cs ConnSpec, stop, stopping <-chan struct{}) clientR
 		if err != nil {
 			res.err = "write: " + err.Error()
 			break
+		}
+		if cs.PaceEvery > 0 && waitAcked != nil && err == nil {
+			paced += cs.PaceEvery
+			if paced > len(ends) {
+				paced = len(ends)
+			}
+			if !waitAcked(cs.Recs[paced-1].Stamp()) {
+				waitAcked = nil // not acknowledged within the (very generous) bound: the rest is written unpaced
+			}
 		}
 		if cs.GapUs > 0 {
 			select {
@@ -789,7 +810,27 @@ func Run(sc Scenario, work string, hk Hooks) (*Obs, error) {
 			}
 			go func(i int, cs ConnSpec) {
 				defer wg.Done()
-				results[i] = runClient(a.Addr, cs, stopCh, stoppingCh)
+				results[i] = runClient(a.Addr, cs, stopCh, stoppingCh, func(stamp string) bool {
+					// bounded wait until the record is in an acknowledged chunk at every upstream
+					for dl := time.Now().Add(15 * time.Second); time.Now().Before(dl); {
+						all := true
+						for _, u := range ups {
+							if !u.AckedStamp(stamp, StampOf) {
+								all = false
+								break
+							}
+						}
+						if all {
+							return true
+						}
+						select {
+						case <-stoppingCh:
+							return false
+						case <-time.After(time.Millisecond):
+						}
+					}
+					return false
+				})
 				if !cs.LeaveOpen {
 					closing.Done()
 				}
